@@ -6,7 +6,9 @@ package __PKG__
 import (
 	"bytes"
 	"io"
+	"os"
 	"sync"
+	"time"
 )
 
 func verifSyncMapKeys(m *sync.Map) []any
@@ -105,3 +107,37 @@ func verifModelPoolGet(p *sync.Pool) any {
 }
 
 func verifModelPoolPut(p *sync.Pool, x any) { verifPoolGive(p, x) }
+
+func verifStatRaw(name string) (int, int, bool)
+func verifENOENT() error
+
+type verifFileInfo struct {
+	name string
+	size int64
+	mode os.FileMode
+}
+
+func (f *verifFileInfo) Name() string       { return f.name }
+func (f *verifFileInfo) Size() int64        { return f.size }
+func (f *verifFileInfo) Mode() os.FileMode  { return f.mode }
+func (f *verifFileInfo) ModTime() time.Time { return time.Time{} }
+func (f *verifFileInfo) IsDir() bool        { return false }
+func (f *verifFileInfo) Sys() any           { return nil }
+
+func verifModelStat(name string) (os.FileInfo, error) {
+	size, mode, ok := verifStatRaw(name)
+	if !ok {
+		return nil, verifENOENT()
+	}
+	return &verifFileInfo{name: name, size: int64(size), mode: os.FileMode(mode)}, nil
+}
+
+func verifFStatRaw(f *os.File) (int, int, bool)
+
+func verifModelFStat(f *os.File) (os.FileInfo, error) {
+	size, mode, ok := verifFStatRaw(f)
+	if !ok {
+		return nil, verifENOENT()
+	}
+	return &verifFileInfo{name: "", size: int64(size), mode: os.FileMode(mode)}, nil
+}
